@@ -321,10 +321,28 @@ func TestPayloadWalk(t *testing.T) {
 				continue
 			}
 			reported := map[string]bool{}
+			prevStage := ""
 			for n := 0; n <= maxLen; n++ {
 				resp := &commands.PacketResponse{LastAckedSeqNo: uint16(n), Packet: &util.Packet{SeqNo: uint16(n * 3), Data: vlib.PRF(uint64(n), 0, n)}}
 				o := pushResponse(resp, domain, r.t, e)
 				sig, msg := classify(r.name, e, domain, resp, "packet", n, o, true)
+				if n > 0 && o.Stage != prevStage {
+					// a capacity or format boundary lies between n-1 and n: what happens there may depend on the content
+					// (a record that sorts to the wrong place shows only if its bytes differ from their neighbours')
+					for _, m := range []int{n - 1, n} {
+						for k := 1; k <= 48 && sig == ""; k++ {
+							r2 := &commands.PacketResponse{LastAckedSeqNo: uint16(m + k), Packet: &util.Packet{SeqNo: uint16(m*3 + k), Data: vlib.PRF(uint64(m*1000+k), 0, m)}}
+							o2 := pushResponse(r2, domain, r.t, e)
+							if s2, m2 := classify(r.name, e, domain, r2, "packet", m, o2, true); s2 != "" && !strings.HasPrefix(s2, "rtype=") {
+								sig, msg = s2, m2+fmt.Sprintf(" (content %d of the sweep at the boundary between %d and %d bytes)", k, n-1, n)
+							}
+							vlib.Rec.Case(fmt.Sprintf("walk-boundary|%s|%s|%d|%d", r.name, e.Name(), m, k), true, []string{"payload-walk-boundary-contents", "rtype:" + r.name, "codec:" + e.Name()}, func() interface{} {
+								return map[string]interface{}{"type": "packet", "rtype": r.name, "codec": e.Name(), "domain": domain, "payload_len": m, "content": k, "outcome_stage": o2.Stage}
+							})
+						}
+					}
+				}
+				prevStage = o.Stage
 				vlib.Rec.Case(fmt.Sprintf("walk|%s|%s|%d", r.name, e.Name(), n), n > 14, []string{"payload-walk", "rtype:" + r.name, "codec:" + e.Name()}, func() interface{} {
 					return map[string]interface{}{"type": "packet", "rtype": r.name, "codec": e.Name(), "domain": domain, "payload_len": n, "outcome_stage": o.Stage}
 				})
